@@ -42,7 +42,12 @@ pub fn unify_once(a: &Unifiable, b: &Unifiable, ss: &SubstitutionSet<'static>) -
     let r = catch_unwind(AssertUnwindSafe(|| {
         match a.unify(b, &cur) { Some(s) => Some((*s).clone()), None => None }
     }));
-    match r { Ok(x) => Ok(x), Err(_) => Err(()) }
+    match r {
+        // a cyclic result is reported like a panic: nothing may be resolved against it
+        Ok(Some(s)) => if chains_end(&s).is_some() { Err(()) } else { Ok(Some(s)) },
+        Ok(None) => Ok(None),
+        Err(_) => Err(()),
+    }
 }
 
 fn status_str(sts: &[Status]) -> String {
@@ -296,7 +301,7 @@ pub fn emit(out: &mut Out, cfg: &Cfg, pairs: &[Pair]) {
 }
 
 fn outcome(r: &Result<Option<SubstitutionSet<'static>>, ()>) -> &'static str {
-    match r { Ok(Some(_)) => "succeeds", Ok(None) => "fails", Err(_) => "panics" }
+    match r { Ok(Some(_)) => "succeeds", Ok(None) => "fails", Err(_) => "panics or builds a cycle" }
 }
 
 /// id of the unbound variable a variable chain ends at (None when it ends at a non-variable)
